@@ -1,4 +1,4 @@
-/* C03 — routed set/call: delivered once to the owner, answered once to the caller, independent of third parties.
+/* C03 - routed set/call: delivered once to the owner, answered once to the caller, independent of third parties.
  * Interleaving layer: all action sequences up to a depth over callers K1 (raw), K2 (ws), owners O1, O2 and a
  * bystander Z, with a virtual clock, judged against a reference model of in-flight requests.
  * Payload layer: product transport x set/call x payload x id form x timeout form x owner behaviour. */
@@ -59,7 +59,7 @@ static int inflight_for_owner(int o)
 
 static void connect_slot(int s)
 {
-	conn[s] = jx_open(s == K2 ? CL_WS : CL_RAW);
+	conn[s] = jx_open(((s == K2) != (xp_param("swap", 0) != 0)) ? CL_WS : CL_RAW); /* swap=1: everybody but K2 speaks websocket */
 	gen[s]++;
 	seen[s] = 0;
 	last_answered_rid[s][0] = 0;
